@@ -3,29 +3,37 @@
 PID = "C13"
 CLAIM = True
 MANIFEST_TEXT = ("Lean 4 theorems, for every process count P, every decomposition, every partial view of it (in particular "
-                 "every consistent state with arbitrary local copies and their remote entries deleted, and states in which a "
-                 "process announces copies its neighbours do not have yet), every numbering of new local indices and every "
+                 "every consistent state with arbitrary local copies and their remote entries deleted, states in which a "
+                 "process announces copies its neighbours do not have yet, and every state reached from these by any history "
+                 "of syncs, deletions and announcements - history_invariant), every numbering of new local indices and every "
                  "order in which a process handles its neighbours' messages: after the message-level model of "
                  "IndicesSyncer::sync every copy that some process believed to exist on a neighbour is in that neighbour's "
                  "index set with the believed attribute, the neighbour's remote index lists name the sender and every holder "
                  "the sender knew with their attributes (new neighbours included), nothing known before is lost or altered, "
-                 "index set and lists are strictly ordered by global index, every remote index resolves to its pair in the "
-                 "re-sorted index set, the remote indices are in sync, the result does not depend on the processing order, and "
-                 "syncing after deleting copies from a consistent state restores exactly that state whenever some holder of "
-                 "each deleted index kept its copy.  Each run executes the real IndicesSyncer (default and user numberer, fixed "
-                 "and arrival order, deletion through RemoteIndexListModifier or SLList iterators) under mpirun -np 1..4 "
-                 "(quick) / 1..6 (thorough) on random overlapping decompositions with PMPI-permuted arrival order, compares "
-                 "the complete state of every rank with the model and evaluates the property itself with a set-theoretic "
-                 "oracle.")
+                 "nothing is invented, index set and lists are strictly ordered by global index, every remote index resolves "
+                 "to its pair in the re-sorted index set, the remote indices are in sync, the result does not depend on the "
+                 "processing order, the exchange matches (one message per neighbour), and syncing after deleting copies from a "
+                 "state with the shape of the consistent state (the consistent state itself or the result of an earlier "
+                 "round) restores exactly that shape, kept pairs keeping their local numbers and restored ones numbered by "
+                 "the numberer, whenever some other process still lists each deleted copy.  A numberer object with internal "
+                 "state is modelled too: same index pairs and remote lists as with a pure numbering, one call per added index, "
+                 "consecutive distinct numbers.  Each run executes the real IndicesSyncer (default numberer, pure user "
+                 "numberer, counting numberer object; fixed and arrival order; deletion through RemoteIndexListModifier or "
+                 "SLList iterators; a second delete-and-sync or sync-again round in 40 % of the cases) under mpirun -np 1..4 "
+                 "(quick) / 1..6 (thorough) on random overlapping decompositions with seeded per-rank start delays, compares "
+                 "the complete state of every rank before the sync, after it and after the second round with the model and "
+                 "evaluates the property itself with a set-theoretic oracle.")
 MANIFEST_NOTE = ("Trusted: Lean kernel (+propext/Classical.choice/Quot.sound), the hand-written protocol model's fidelity "
-                 "(differential runs only, bounded: P<=6, <=14 globals), harness oracle, g++/ASan/UBSan, OpenMPI (reliable, "
-                 "pairwise FIFO; MPI_Pack layout and buffer-size computation exercised, not modelled).  The SLList iterator "
-                 "bookkeeping of the syncer (Iterators, resetIteratorsMap, checkReset) and the pointer representation of "
-                 "remote indices are covered by the runs + ASan only; the model keeps references as (global, attribute) keys, "
-                 "as the code does during sync.  Hypotheses of the theorems: every global index at most once per index set, "
-                 "beliefs agree with one ground-truth decomposition, neighbourhood symmetric (otherwise the MPI exchange itself "
-                 "does not match).  The model describes the tree with fixes/C13_*.patch applied.")
-TECHNIQUE = "Lean 4 proof over a message-level protocol model + differential correspondence under MPI with PMPI schedule steering and a set-theoretic oracle"
+                 "(differential runs only, bounded: P<=6, <=14 globals, <=2 rounds), harness oracle, g++/ASan/UBSan, OpenMPI "
+                 "(reliable, pairwise FIFO; MPI_Pack layout and buffer-size computation exercised, not modelled).  The SLList "
+                 "iterator bookkeeping of the syncer (Iterators, resetIteratorsMap, checkReset) and the pointer representation "
+                 "of remote indices are covered by the runs + ASan only; the model keeps references as (global, attribute) "
+                 "keys, as the code does during sync.  Hypotheses of the theorems: every global index at most once per index "
+                 "set, beliefs agree with one ground-truth decomposition, neighbourhood symmetric (otherwise the MPI exchange "
+                 "itself does not match).  The model describes the tree with fixes/C13_*.patch applied; in particular each "
+                 "sync only consumes the messages of that sync (fixes/C13_syncer_arrival_order_mixes_syncs.patch; before it, "
+                 "MPI_ANY_SOURCE let a fast neighbour's next-sync message be taken for a slow neighbour's outstanding one).")
+TECHNIQUE = "Lean 4 proof over a message-level protocol model + differential correspondence under MPI (two-round histories, seeded start delays) and a set-theoretic oracle"
 TRANSLATORS = []
 HARNESS = dict(
     sources=["mpi_c13.cc", "pmpi_sched.cc"],
@@ -34,18 +42,23 @@ HARNESS = dict(
 )
 RULE = ("cases: rank 0 draws a decomposition (<= 9 quick / 14 thorough global indices, each on one rank, all ranks, a random "
         "subset, or - sparse style - on consecutive ranks only) with owner/overlap/copy-style, ownerless, arbitrary or uniform "
-        "attributes; every rank builds its index set and RemoteIndices::rebuild; non-owner copies are deleted with probability "
-        "0/25/50/75/100 % (markAsDeleted + removal of the remote entries through RemoteIndexListModifier or SLList modify "
-        "iterators); in a third of the cases processes also add new copies and announce them for neighbours that do not hold "
-        "them (new neighbours arise in the sparse style); then IndicesSyncer::sync with the default numberer or a user "
-        "numberer, arrival or fixed order; the arrival order is permuted by the PMPI scheduler.  distinct = distinct op lines; "
-        "non-trivial = at least one process had a non-empty remote index list before the sync")
+        "attributes; every rank builds its index set and RemoteIndices::rebuild; non-owner copies (in 1/6 of the cases owner "
+        "copies too) are deleted with probability 0/25/50/75/100 % (markAsDeleted + removal of the remote entries through "
+        "RemoteIndexListModifier or SLList modify iterators); in a third of the cases processes also add new copies and "
+        "announce them for neighbours that do not hold them (new neighbours arise in the sparse style); then "
+        "IndicesSyncer::sync with the default numberer, a pure user numberer or a counting numberer object, arrival or fixed "
+        "order; in 40 % of the cases a second round follows without any synchronisation in between (sync again, or delete "
+        "the same copies again and sync); every rank enters each sync after a seeded delay of 0..1 ms so that arrival orders "
+        "vary and fast ranks overtake slow ones.  The state of every rank is compared before the first sync, after it and "
+        "after the second.  distinct = distinct op lines; non-trivial = at least one process had a non-empty remote index "
+        "list before the sync")
 ASSUMPTIONS = [
-    "the Lean model lean/DuneVerif/Model/C13.lean is hand-written (protocol level); its fidelity to indicessyncer.hh rests on this differential run (P <= 6)",
+    "the Lean model lean/DuneVerif/Model/C13.lean is hand-written (protocol level); its fidelity to indicessyncer.hh rests on this differential run (P <= 6, <= 2 rounds)",
     "MPI is trusted: reliable, pairwise FIFO; MPI_Pack layout and the message size computation are exercised, not modelled",
-    "the consistent initial state is defined in the model directly from the decomposition by the specification of RemoteIndices::rebuild (C04 proves that rebuild meets it); the harness uses the real rebuild",
+    "the consistent initial state is defined in the model directly from the decomposition by the specification of RemoteIndices::rebuild (C04 proves that rebuild meets it); the harness uses the real rebuild and compares the state before the sync with the model as well",
     "every global index occurs at most once per index set; all beliefs agree with one decomposition; the neighbour relation is symmetric",
-    "the model describes the tree with fixes/C13_syncer_duplicate_remote_entry.patch, fixes/C13_syncer_index_added_twice.patch and fixes/C13_modifier_repair_pointers.patch applied",
+    "arrival orders are varied by seeded start delays (after fixes/C13_syncer_arrival_order_mixes_syncs.patch the syncer no longer probes MPI_ANY_SOURCE, so the PMPI scheduler has nothing to permute); order independence for all orders is the theorem order_irrelevant",
+    "the model describes the tree with fixes/C13_syncer_duplicate_remote_entry.patch, fixes/C13_syncer_index_added_twice.patch, fixes/C13_modifier_repair_pointers.patch and fixes/C13_syncer_arrival_order_mixes_syncs.patch applied",
 ]
 TRUSTED = ["g++/libstdc++, ASan/UBSan, OpenMPI", "harness/mpi_c13.cc (generator, executor, set-theoretic oracle) + harness/pmpi_sched.cc",
            "Driver/C13.lean parsing/printing and its construction of the pre-sync state from the op line"]
